@@ -65,6 +65,7 @@ Inductive err :=
 | ErrBorrowShadowed (x : nat)   (* BorrowShadowedError *)
 | ErrUnnamedExpr                (* UnnamedExprNotUsedError *)
 | ErrDropAfterCall              (* DropAfterCallError *)
+| ErrUnnamedAccess              (* UnnamedFieldNotUsedError / UnnamedTupleNotUsedError *)
 | ErrCrash.                     (* AssertionError / KeyError: not a user error *)
 
 Inductive res (A : Type) := Ok (a : A) | Err (e : err).
@@ -192,7 +193,10 @@ Fixpoint run_events (fin : finputs) (s : scope) (es : list event) : res scope :=
 Inductive expr :=
 | XPlace (p : place)                                   (* PlaceNode *)
 | XCall (flags : list (bool * bool)) (args : list expr) (* call; per input (Inout?, ty droppable?) *)
-| XNode (cs : list expr).                              (* anything else: generic_visit *)
+| XNode (cs : list expr)                               (* anything else: generic_visit *)
+| XDrop (e : expr) (ok : bool).                        (* FieldAccessAndDrop / TupleAccessAndDrop: a projection of
+                                                          a value that is not a place; ok = every other
+                                                          field / element is droppable *)
 
 Inductive stmt :=
 | SAssign (tgts : list place) (v : expr)   (* ast.Assign: PlaceNodes of the target, value *)
@@ -229,6 +233,7 @@ Fixpoint ev_expr (e : expr) : list event :=
          | _, _ => []
          end) args flags
       ++ args_back flags args
+  | XDrop e0 ok => ev_expr e0 ++ (if ok then [] else [EFail ErrUnnamedAccess])
   end.
 
 Definition ev_stmt (st : stmt) : list event :=
@@ -387,6 +392,7 @@ Definition enc_err (e : err) : list nat :=
   | ErrAlreadyUsed x => [1; x] | ErrNotUsed x => [2; x] | ErrNotOwned x => [3; x]
   | ErrBorrowShadowed x => [4; x] | ErrUnnamedExpr => [5] | ErrDropAfterCall => [6]
   | ErrCrash => [7]
+  | ErrUnnamedAccess => [8]
   end.
 Definition enc_verdict (v : verdict) : list nat :=
   match v with
